@@ -91,6 +91,16 @@ BIN = {
 
 def binop(op: str, a, b):
     if isinstance(a, D) or isinstance(b, D):
+        # NaN is absorbing: an arithmetic result with a constant NaN operand is the constant NaN whatever the other operand is
+        # (the warm-up padding of a series stays a constant, it does not become "a computed value that happens to be NaN")
+        for x in (a, b):
+            if isinstance(x, float) and x != x:
+                if op in ("add", "sub", "mul", "div", "floordiv", "mod", "pow", "max", "min", "atan2"):
+                    return NAN
+                if op in ("lt", "le", "gt", "ge", "eq"):
+                    return False
+                if op == "ne":
+                    return True
         # x * 0 carries no dependence - unless x may be infinite / NaN on valid candles (0 * inf = NaN): then the product
         # still depends on x
         if op == "mul" and ((not isinstance(a, D) and a == 0) or (not isinstance(b, D) and b == 0)):
